@@ -39,9 +39,9 @@ explicit, parameterised by `checked = cfg!(debug_assertions)`.
 * `C09_span_text_L0`, `C09_span_new_L0`, `C09_position_new_L0` — for every span the L1 run stores,
   `Span::as_str` (`&input[s..e]`) does not panic and yields the encoding of `txt`; the
   `debug_assert!`s of `Span::new_unchecked` / `Position::new_unchecked` hold.
-  The run-level statement "run(checked := true) = run(checked := false)" is the composition of these
-  primitive-level facts along the L1 run (every cursor of an L1 run is `i.adv k` of the entry cursor,
-  `Abs.adv`); there is no separate L0 interpreter to state it about.  Memory safety of
+  The run-level statement "run(checked := true) = run(checked := false)" is proved about the byte-level
+  interpreter of `Model/RunL0.lean` in `Props/C09Run.lean` (`C09_run_sim`, `C09_run_profile`,
+  `C09_run_no_panic`), by composing these primitive-level facts along the run.  Memory safety of
   `get_unchecked` itself is outside the model: what is proved is its arithmetic precondition.
 (c) totality, L1:
 * `C09_total` — `Res` has no panic constructor: every call is out-of-fuel, failure or success;
